@@ -186,6 +186,27 @@ def install(I, B):
 
     reg("psum", psum)
 
+    def psum_monotone(I, st, seq, strict=False):
+        """Adds  forall i<=j (within bounds): psum(i) <= psum(j)  (strict: i<j -> <).
+        Justification: induction on j over the one-step fact psum(j+1) = psum(j) + L[j] with L[j] >= 0 (> 0),
+        which is the defining axiom; the hypothesis forall k. L[k] >= 0 (>= 1) must already be on the path."""
+        e = st.get(seq)
+        psum(I, st, seq, 0)
+        f = I.uf["psum_%d" % e.arr.get_id()]
+        i, j = z3.Int("i!pm"), z3.Int("j!pm")
+        k = z3.Int("k!pm")
+        elems_ok = z3.ForAll([k], z3.Implies(z3.And(k >= 0, k < e.length), z3.Select(e.arr, k) >= (1 if strict else 0)))
+        # the element hypothesis is checked, not assumed
+        I.oblige(st, elems_ok, "psum_monotone.hypothesis", "lemma-hypothesis")
+        body = z3.Implies(z3.And(0 <= i, i <= j, j <= e.length), f(i) <= f(j))
+        st.pc.append(z3.ForAll([i, j], body, patterns=[z3.MultiPattern(f(i), f(j))]))
+        if strict:
+            st.pc.append(z3.ForAll([i, j], z3.Implies(z3.And(0 <= i, i < j, j <= e.length), f(i) < f(j)), patterns=[z3.MultiPattern(f(i), f(j))]))
+        I.trust("psum-monotone", "psum is monotone for non-negative lists: induction schema over the defining step axiom (hypothesis on the elements discharged as an obligation)")
+        return None
+
+    reg("psum_monotone", psum_monotone)
+
     def uf(I, st, name, *args):
         """uninterpreted real-valued function of real arguments (an arbitrary correlation)"""
         zs = []
@@ -216,6 +237,20 @@ def install(I, B):
         return bytesmodel.BytesVal([bytesmodel.Part("raw", Opaque("blob"), n)])
 
     reg("blob", blob)
+
+    def choose(I, st, a, k):
+        """case split on a bounded integer: forks one path per value in [lo, hi] and returns it as a concrete int"""
+        x, lo, hi = a
+        if not is_z3(x):
+            yield st, x
+            return
+        for v in range(lo, hi + 1):
+            if I.feasible(st, x == v):
+                s2 = st.fork()
+                s2.pc.append(x == v)
+                yield s2, v
+
+    B["choose"] = Builtin("spec.choose", choose)
 
     def to_real(I, st, x):
         x = as_arith(x)
